@@ -25,6 +25,34 @@ Theorem C33_total_body : forall bs,
 Proof. exact total_body. Qed.
 Print Assumptions C33_total_body.
 
+(* block responses (the gossamer layer above the protobuf parse: per block the header bytes through
+   s_header, the body entries behind their compact count through s_body): a message or an error;
+   and what Decode returns (bresp_view: per block the decoded header and body) exists exactly when
+   the decoder succeeds, with one entry per block *)
+Theorem C33_total_bresp : forall blocks,
+  fst (bresp_decode current blocks) <> Panic /\ fst (bresp_decode current blocks) <> OutOfFuel.
+Proof. exact bresp_total. Qed.
+Print Assumptions C33_total_bresp.
+
+Theorem C33_bresp_view : forall blocks,
+  (exists l, bresp_view current blocks = Ok l /\ length l = length blocks) <->
+  fst (bresp_decode current blocks) = Ok tt.
+Proof. exact bresp_view_ok. Qed.
+Print Assumptions C33_bresp_view.
+
+(* block requests: an accepted request has a 32-byte start hash or a start number below 2^32 taken
+   from exactly four bytes, one-byte requested-data and direction fields, and no maximum exactly
+   when max_blocks is 0 *)
+Theorem C33_breq_shape : forall fields from dir maxb data start d mx,
+  breq_decode fields from dir maxb = Some (data, start, d, mx) ->
+  data < 256 /\ d < 256 /\ (mx = None <-> maxb = 0) /\
+  match start with
+  | StartHash h => length h = 32%nat
+  | StartNumber n => n < 4294967296
+  end.
+Proof. exact breq_shape. Qed.
+Print Assumptions C33_breq_shape.
+
 (* a successfully decoded message re-encodes to an equal message: marshalling the decoded value
    (encode_go = what scale.Marshal does) and decoding again returns the same value *)
 Theorem C33_reencode : forall t bs v r r', In t schemas ->
